@@ -167,11 +167,7 @@ theorem step_fine (E : ElemOps ε) {O : Obj ε} (hw : O.WF) (op : Op ε) (hop : 
     exact fine_map (fun a => ({ O with arr := a } : Obj ε)) (fun _ h => h)
       (split_fine O.cls _ _ (fun h => transpose_fine 1 ax h) (fun h => transpose_fine 0 ax h)
         (fun _ _ hs _ _ hD hF => transpose_shape_agree ax hs hD hF) hw)
-  | squeeze =>
-    simp only [step, Obj.squeeze]
-    by_cases hc : O.cls = .miller
-    · rw [if_pos hc]; exact Or.inr ⟨_, rfl, by decide⟩
-    · rw [if_neg hc]; exact Or.inl ⟨_, rfl, squeeze_wf hw⟩
+  | squeeze => exact Or.inl ⟨_, rfl, squeeze_wf hw⟩
   | stack pos others =>
     simp only [step, Obj.stack]
     have hall : ∀ B ∈ List.take pos others ++ O.arr :: List.drop pos others, B.WF := by
